@@ -56,7 +56,9 @@ class ImpactedPartition:
             self.logicalPartLogID)
         out["Primary Partition Name"] = self.lpName
 
-        for i in range(self.targetLPcount):
-            out["Target LP"] = "0x{:04X}".format(self.targetLPs[i])
+        # Every target LP is shown: a single key would keep only the last one.
+        if self.targetLPcount:
+            out["Target LP"] = ["0x{:04X}".format(lp)
+                                for lp in self.targetLPs]
 
         return out
